@@ -137,7 +137,7 @@ def generate(rng, tier):
             if max(in_shape) <= 10:
                 dx1 = [st0['du'][0] / st0['os'], st0['du'][1] / st0['os']]
                 st1 = _stage(rng, in_shape, dx1, tier, allow_tilt=False)
-                if st1['shape'] is None and max(in_shape) * st1['os'] > 14: st1['shape'] = [5, 6]
+                if st1['shape'] is None and max(in_shape) * st1['os'] > 14: st1['shape'] = [5, 6]; st1['mask'] = None; st1['prop_shape'] = None
                 _fix_tilts(st1)
                 c['stages'].append(st1)
         out.append(c)
@@ -246,7 +246,14 @@ def compare(c, io, mo):
     if got.shape != want.shape: return f'Wavefront.field shape {got.shape} vs model {want.shape}'
     d = float(np.max(np.abs(got - want))) if got.size else 0.0
     if d > _tol(io): return f'Wavefront.field differs from the model by {d:.3e}'
-    if not np.array_equal(got == 0, want == 0): return 'exact-zero pattern of Wavefront.field differs from the model'
+    # samples outside every output field of the model must be exactly zero in the implementation
+    cover = np.zeros(got.shape, bool)
+    for f in m['fields']:
+        e = ext_of(f['shape'], f['off'])
+        r0 = max(0, e[0] + got.shape[0] // 2); r1 = min(got.shape[0] - 1, e[1] + got.shape[0] // 2)
+        c0 = max(0, e[2] + got.shape[1] // 2); c1 = min(got.shape[1] - 1, e[3] + got.shape[1] // 2)
+        if r0 <= r1 and c0 <= c1: cover[r0:r1 + 1, c0:c1 + 1] = True
+    if np.any(got[~cover] != 0): return 'Wavefront.field is non-zero outside every output field of the model'
     ps = vlib.unfl(m['pixelscale'])
     if any(abs(x - y) > 1e-12 * abs(y) for x, y in zip(io['pixelscale'], ps)): return f"output pixelscale {io['pixelscale']} vs model {ps}"
     return None
